@@ -141,6 +141,37 @@ check(
     'DESIGN 3 (C01)',
 )
 
+check(
+    'C13',
+    'blocksim',
+    'exploration',
+    'RUN-LEVEL CLAUSE ONLY. Histories of one or more run() legs on one real controller_nonMPI (restart/step-size histories, real multi-level '
+    'physics, adaptive SDC/RK runs, DAE sweepers that update nodes in place) with LogSolution/LogSolutionAfterIteration and with in-place '
+    'corruptions of iterates by a hook (the way Resilience.FaultInjector writes); a spy keeps every logged array with its digest at logging '
+    'time; the caller\'s initial value, every returned value, every logged array and the end value object of every finished step are '
+    'compared byte for byte again after the last leg.',
+    'The data-type algebra clause of C13 (operator value semantics, copy construction, component views, abs as max norm) is NOT claimed: pure '
+    'functions of their operands, no schedule/history/fault. Latent aliasing without observable change is not reported. MPI buffer clause: C08.',
+    'deterministic simulation: seeded multi-run histories with in-place fault injection, byte-level history check of caller, returned and logged values',
+    'DESIGN 3 (C13)',
+)
+
+check(
+    'C19',
+    'blocksim',
+    'exploration',
+    'Process histories of up to 8 operations without fork in between over a pool of up to 3 real controllers (fixed-step SDC/MLSDC/PFASST on '
+    'stub and real physics; an adaptive/RK controller registering extra status variables, hooks and convergence controllers; two controllers '
+    'built from the very same dictionaries): new, run, rerun, run of another interval on a used controller, split at a block boundary and '
+    'continue on the same or a fresh controller. Reference for every run: the same run alone in a freshly forked child; returned value and '
+    'statistics must agree bit for bit (timing values aside), split runs must reproduce the uninterrupted per-step records.',
+    'Known findings F10 (RNG stream of initial_guess=random) and F11 (space transfer of order >= 6 depends on numpy\'s global RNG through '
+    'scipy BarycentricInterpolator) are reported as KNOWN-FINDING. The harness pins numpy\'s global RNG at the start of every history so that '
+    'histories replay exactly.',
+    'deterministic simulation: seeded operation histories over long-lived controllers in one process, differential check against isolated (forked) reference executions',
+    'DESIGN 3 (C19)',
+)
+
 
 def build():
     claimed = sorted(CHECKS)
